@@ -244,6 +244,36 @@ def build(run):
         return undecided("non-zero result for grad of a coefficient with a user relation: no spec for this case")
     run.add("coefficient_derivatives/grad(g).grad(g)", cd_grad, kind="values")
 
+    # ---- the dispatcher's ruleset cache: several derivative nodes expanded in ONE pass.  Contract of DerivativeRuleDispatcher: the ruleset used for a
+    # node is the one constructed from that node's own operands, so expand(d1 + d2) == expand(d1) + expand(d2) whichever parameters d1, d2 share.
+    def one_pass(name, mk):
+        def thunk():
+            d1, d2 = mk()
+            both = expand_derivatives(d1 + d2)
+            a, b = expand_derivatives(d1), expand_derivatives(d2)
+            for x in (both, a, b):
+                if any(isinstance(t, (C.CoefficientDerivative, C.VariableDerivative)) for t in ufl.corealg.traversal.unique_pre_traversal(x)):
+                    return violated(f"{name}: derivative nodes survive expansion", replay={"case": name}, reproduced=True)
+
+            def spec(w, c, env):
+                return N.add(den(w, a, c, env), den(w, b, c, env))
+            return check_same(atoms_world(), both, spec, both.ufl_shape, timeout_ms=tmo, what=name)
+        run.add(f"one-pass/{name}", thunk, kind="values")
+    G = lambda e, w_, v_, cd=None: derivative(e, w_, v_, coefficient_derivatives=cd)  # noqa: E731
+    one_pass("same (w,v), different coefficient_derivatives", lambda: (G(sin(f) * g, f, vf, {g: 3 * f * f}), G(f * f * h, f, vf, {h: ufl.cos(f)})))
+    one_pass("same (w,v), relation for g vs none", lambda: (G(f * g, f, vf, {g: h}), G(f * g, f, vf)))
+    one_pass("same (w,v), same relation target, different relation", lambda: (G(f * g, f, vf, {g: h}), G(f * g, f, vf, {g: f * h})))
+    one_pass("same w, different direction", lambda: (G(f * f * g, f, vf), G(f * f * g, f, v2f)))
+    one_pass("same v, different variable", lambda: (G(f * f * g, f, vf), G(f * f * g, g, vf)))
+    one_pass("identical derivative twice", lambda: (G(f * f * g, f, vf), G(f * f * g, f, vf)))
+    one_pass("nested: derivative of a sum of derivatives", lambda: (G(G(f * f * f * g, f, vf) + G(f * g * g, g, vf), f, v2f), G(f * f, f, v2f)))
+
+    def two_variables():
+        a_, b_ = variable(f * g), variable(f * g)         # same expression, different labels
+        return (ufl.diff(a_ * a_ * b_, a_), ufl.diff(a_ * a_ * b_, b_))
+    one_pass("diff w.r.t. two variables wrapping the same expression", two_variables)
+    one_pass("diff and derivative in one expression", lambda: ((lambda a_: ufl.diff(a_ ** 3, a_))(variable(f)), G(f ** 3, f, vf)))
+
     def canary():
         F = f * f * dx
         r = expand_derivatives(derivative(F, f, vf)).integrals()[0].integrand()
